@@ -133,7 +133,7 @@ uint32_t Wave_File::parse_chunk(const uint8_t *fdata)
 			step = (sbits * channels) / 8;
 			srate = *(uint32_t*)(fdata+0x0c);
 			slength = 0;
-			if(stype != 1 || channels > 2 || step == 0)
+			if(stype != 1 || channels > 2 || step == 0 || (sbits != 8 && sbits != 16))
 			{
 				fprintf(stderr,"unsupported format\n");
 				return 0;
